@@ -24,6 +24,7 @@ CLAIMS = {
  "C08": ("C08_loc: every node any query yields on a well-formed value satisfies getAt root location = value (any query, any registry, streams cut short by errors included); C08_canonical/C08_path_normal: canonical_string (json.dumps + two str.replace) and path() equal the RFC normalized name/path for every string over every Unicode scalar value; C08_unique: normalized paths determine the location. Object identity and the re-query clause are explored on the real code (is / find(path())), the latter not yet a theorem.", "§7 C08"),
  "C09": ("C09 (full statement, every input): implString q inp = Spec.stringBody q ... — the implementation's two-phase reading of a string literal (lexer string loop, then the quote-normalising replace pair and the escape decoder) equals the one-pass RFC recogniser: same acceptance, same denoted string, same remaining input, for both quote styles; hence every \\b \\f \\n \\r \\t \\/ \\\\ own-quote, \\uXXXX of either hex case incl. controls and U+0000, and surrogate pairs decode as the RFC says, and raw controls / unknown or truncated escapes / the other quote escaped / unpaired surrogates are rejected; C09_surrogate_arith for all 1024x1024 pairs; the decoder cannot raise IndexError on lexer output. The link lexer-object-loop = scanString is part of C13_token_shapes.", "§7 C09"),
  "C10": ("C10_args: what a function body receives (evaluate + _unpack_node_lists) is exactly the RFC conversion of the arguments to the declared parameter types, for any registry and any well-typed argument list; length/count/value specs; result use by declared type. Tie B with recording probe functions.", "§7 C10"),
+ "C12": ("PARTIAL. Proved: C12_partial — for every filter-free query (any mix of child/descendant segments and name, index, slice, wildcard selectors; names over all characters; all integers) the text str() prints is derived by the RFC 9535 grammar (the independent recogniser Spec.parseQuery accepts it) and denotes the same query up to writing an omitted slice step as 1 (which selects the same nodes, C07_slice); C12_fixpoint — printing is idempotent on that normal form; C12_quoting/C08_canonical — names and string literals appear in the canonical single-quoted RFC form for every string. NOT proved: the filter-expression fragment (precedence-aware parenthesisation vs the Pratt parser) and the number clause (repr(float) is CPython runtime, modelled in Py.lean); both are decided on every run by the oracle search: str(compile(q)) must be judged valid by Spec.Grammar, reparse (real parser and oracle) to the same AST, be a fixed point, and select the same nodes; the printer and repr(float) models are compared with the real ones.", "§7 C12"),
  "C13": ("PARTIAL. Proved: C13_lex — for every string the lexer terminates within its fuel (potential 3*(n-pos)+rank strictly decreases) and returns tokens or a JSONPathError; C13_token_shapes — token lists end in EOF, INDEX texts are -?[0-9]+ (int() cannot fail), string texts were accepted by the string loop (the decoder cannot raise IndexError: C09_no_index_error); C13_eval_partial — a query compile() returns, applied to a well-formed value within the depth limit with the built-in registry, evaluates without any exception (C05_partial + eval_correct). NOT yet proved: the parser half of compile totality (no non-JSONPath exception, fuel sufficiency) and evaluation beyond the depth limit; explored with garbage strings to 1024 chars / nesting 32 and every JSON kind as root and child, the model predicting the exact outcome class.", "§7 C13"),
  "C14": ("C14_history: after ANY finite history of API operations that registers nothing on a query's own environment, applying the query gives the outcome it gave before (induction over operation lists on the World model); apply/find are pure (world unchanged); outcome is a function of (AST, environment configuration, value); frame theorems for register/subclass; recompilation gives identical behaviour. What makes this about the code: the regenerated effect table (no store/mutation on any object that outlives a call: Tables.writes_benign) and the hist correspondence op replaying random histories on the real objects; non-modification of the document is observed (deep snapshot), not proved.", "§7 C14"),
  "C15": ("C15_*: find = list(finditer), find_one = head (even when a later element would raise), environment and module-level paths = compile followed by the compiled query's methods, invalid queries raise the same class eagerly from every entry point — equations between the model's definitions of the 11 public callables; that the real callables are wired this way is explored by pushing every (query, value) through all of them.", "§7 C15"),
